@@ -259,7 +259,7 @@ Lemma kp_seq a b c : kp a b -> (cid_fresh b -> kp b c) -> cid_fresh a -> kp a c.
 Proof. intros H1 H2 Fa. eapply kp_trans; [exact H1|]. apply H2. eapply kp_fresh; eassumption. Qed.
 
 (* dropping an entry of the origin table changes nothing kp speaks about *)
-Lemma kp_drop_origin n h e : kp n (drop_origin n h e).
+Lemma kp_drop_origin n k0 h e : kp n (drop_origin n k0 h e).
 Proof. split; [apply frame_same; reflexivity|apply swk_wk, swk_same; reflexivity]. Qed.
 
 (* kp for send_message *)
